@@ -293,6 +293,18 @@ func SectorTweak(sector uint64) []byte {
 	return t
 }
 
+// xtsTweaks returns a lookup for T_j = T * alpha^j, j = 0..n-1, computed
+// incrementally (T_{j+1} = T_j * alpha) instead of from scratch per block.
+func xtsTweaks(T []byte, n int, gb bool) func(j int) []byte {
+	list := make([][]byte, n)
+	p := toPoly(T, gb)
+	for j := 0; j < n; j++ {
+		list[j] = fromPoly(p, gb)
+		p = mulX(p)
+	}
+	return func(j int) []byte { return list[j] }
+}
+
 func xexEnc(b1 cipher.Block, t, p []byte) []byte { return xor(enc(b1, xor(p, t)), t) }
 func xexDec(b1 cipher.Block, t, c []byte) []byte { return xor(dec(b1, xor(c, t)), t) }
 
@@ -318,7 +330,7 @@ func checkXTS(b1 cipher.Block, T, src []byte) {
 func XTSEncryptFrom(b1 cipher.Block, T []byte, src []byte, gb bool) []byte {
 	checkXTS(b1, T, src)
 	m, b := len(src)/16, len(src)%16
-	tw := func(j int) []byte { return XTSTweakAfter(T, j, gb) }
+	tw := xtsTweaks(T, m+1, gb)
 	out := []byte{}
 	for j := 0; j < m-1; j++ {
 		out = append(out, xexEnc(b1, tw(j), src[16*j:16*j+16])...)
@@ -342,7 +354,7 @@ func XTSEncryptFrom(b1 cipher.Block, T []byte, src []byte, gb bool) []byte {
 func XTSDecryptFrom(b1 cipher.Block, T []byte, src []byte, gb bool) []byte {
 	checkXTS(b1, T, src)
 	m, b := len(src)/16, len(src)%16
-	tw := func(j int) []byte { return XTSTweakAfter(T, j, gb) }
+	tw := xtsTweaks(T, m+1, gb)
 	out := []byte{}
 	for j := 0; j < m-1; j++ {
 		out = append(out, xexDec(b1, tw(j), src[16*j:16*j+16])...)
